@@ -21,6 +21,7 @@ type SpecEnv struct {
 	inOld      bool
 	depth      int
 	curLoop    *loopInfo
+	freeCells  map[string]*Cell // captured variables of a function literal, by name
 }
 
 func (x *Exec) newEnv(st, old *State, fr *Frame) *SpecEnv {
@@ -162,6 +163,9 @@ func (e *SpecEnv) term(v Val) Term {
 	case *Closure, *StaticFn, *Noop:
 		return Term{"1", intT}
 	}
+	if p, ok := v.(*Place); ok && p.Cell != nil {
+		bail("spec: address of local %s (path %v) is not a term", p.Cell.name, p.Path)
+	}
 	bail("spec: value %T is not a term", v)
 	return Term{}
 }
@@ -226,7 +230,11 @@ func (e *SpecEnv) eval(ex Expr) Val {
 		}
 		body := ch.evalBool(n.Body)
 		if n.Forall {
-			return Term{"(forall (" + strings.Join(binds, " ") + ") " + implies(and(guards...), body) + ")", boolT}
+			inner := implies(and(guards...), body)
+			if pat := indexPattern(inner, ch, n.Vars); pat != "" && strings.Contains(inner, "(exists ") {
+				return Term{"(forall (" + strings.Join(binds, " ") + ") (! " + inner + " :pattern (" + pat + ")))", boolT}
+			}
+			return Term{"(forall (" + strings.Join(binds, " ") + ") " + inner + ")", boolT}
 		}
 		return Term{"(exists (" + strings.Join(binds, " ") + ") " + and(append(guards, body)...) + ")", boolT}
 	case *LetE:
@@ -276,6 +284,11 @@ func (e *SpecEnv) ident(name string) Val {
 	x := e.x
 	if v, ok := e.vars[name]; ok {
 		return v
+	}
+	if c, ok := e.freeCells[name]; ok {
+		if v, ok := e.st.cells[c]; ok {
+			return v
+		}
 	}
 	switch name {
 	case "nil":
@@ -404,6 +417,16 @@ func (e *SpecEnv) findCell(name string) *Cell {
 	fr := e.fr
 	if fr == nil {
 		return nil
+	}
+	if name == "rangeindex" && e.curLoop != nil {
+		// the hidden index of the range loop this clause belongs to
+		for _, in := range e.curLoop.header.Instrs {
+			if st, ok := in.(*ssa.Store); ok {
+				if a, ok := st.Addr.(*ssa.Alloc); ok && a.Comment == "rangeindex" {
+					return fr.allocCell[a]
+				}
+			}
+		}
 	}
 	k := 0
 	for _, b := range fr.fn.Blocks {
@@ -767,6 +790,14 @@ func (e *SpecEnv) call(n *CallE) Val {
 			return e.undefined(n.Args[0], n.Args[1:], false)
 		}
 		return ev[len(ev)-1].Args[mustInt(n.Args[1])]
+	case "atcall": // atcall(f, e): e evaluated in the state right after the (last) call of f returned
+		ev := e.events(n.Args[0])
+		if len(ev) == 0 || ev[len(ev)-1].After == nil {
+			return e.undefined(n.Args[0], nil, true)
+		}
+		ch := e.child()
+		ch.st = ev[len(ev)-1].After
+		return ch.eval(n.Args[1])
 	case "before":
 		a, b := e.events(n.Args[0]), e.events(n.Args[1])
 		if len(a) == 0 || len(b) == 0 {
@@ -779,6 +810,17 @@ func (e *SpecEnv) call(n *CallE) Val {
 	}
 	if g, ok := x.ghosts[n.Fun]; ok {
 		return e.ghostCall(g, n)
+	}
+	if u, ok := x.ufuns[n.Fun]; ok {
+		// uninterpreted spec function (trusted to exist; constrained only by contracts)
+		retT := x.resolveType(e.fn, u.Ret)
+		var sig, args []string
+		for i, p := range u.Params {
+			sig = append(sig, x.sortOf(x.resolveType(e.fn, p.Type)))
+			args = append(args, e.term(e.eval(n.Args[i])).S)
+		}
+		x.reg.declFun("uf_"+u.Name, "("+strings.Join(sig, " ")+") "+x.sortOf(retT))
+		return Term{app("uf_"+u.Name, args...), retT}
 	}
 	bail("spec: unknown function %s", n.Fun)
 	return nil
@@ -928,4 +970,66 @@ func foldCmp(op, a, b string) string {
 		return eq(a, b)
 	}
 	return app(op, a, b)
+}
+
+// indexPattern builds an explicit trigger for a universally quantified clause whose integer
+// variables are used as slice indices: one `(at off v)` term per variable. Returns "" when some
+// variable has no such term (the solver then chooses triggers itself).
+func indexPattern(body string, ch *SpecEnv, vars []Bound) string {
+	var pats []string
+	for _, b := range vars {
+		v, ok := ch.vars[b.Name].(Term)
+		if !ok {
+			return ""
+		}
+		needle := " " + v.S + ")"
+		found := ""
+		for idx := 0; idx < len(body); {
+			k := strings.Index(body[idx:], needle)
+			if k < 0 {
+				break
+			}
+			end := idx + k + len(needle)
+			// walk back to the matching "(at "
+			depth := 0
+			start := -1
+			for j := end - 1; j >= 0; j-- {
+				if body[j] == ')' {
+					depth++
+				} else if body[j] == '(' {
+					depth--
+					if depth == 0 {
+						start = j
+						break
+					}
+				}
+			}
+			if start >= 0 && strings.HasPrefix(body[start:], "(at ") {
+				found = body[start:end]
+				// prefer the enclosing array read `(select ARR (at off v))`: it does not match the
+				// same index under a different array version, which avoids matching loops
+				d := 0
+				for j := start - 1; j >= 0; j-- {
+					if body[j] == ')' {
+						d++
+					} else if body[j] == '(' {
+						if d == 0 {
+							if strings.HasPrefix(body[j:], "(select ") && end < len(body) && body[end] == ')' {
+								found = body[j : end+1]
+							}
+							break
+						}
+						d--
+					}
+				}
+				break
+			}
+			idx = end
+		}
+		if found == "" {
+			return ""
+		}
+		pats = append(pats, found)
+	}
+	return strings.Join(pats, " ")
 }
